@@ -10,10 +10,10 @@ RULE = ('event traces for the real SocketDriver (built by its own __init__ with 
         'outgoing: texts with 1/2/3/4-byte characters x every send script of <=3 calls over {1,2,3,5 bytes, EAGAIN} then a drain + '
         'incoming: every partition of short streams (<=9 bytes quick, <=12 thorough) containing CR LF, multi-byte characters, invalid UTF-8, '
         'blank and malformed lines + seeded random mixed traces (mostly valid IRC traffic) + hostile traces (random bytes, surrogates, k=0, '
-        'error bursts beyond the EAGAIN limit, closed socket).  Every trace runs on the implementation and on the extracted model; the '
+        'error bursts beyond the EAGAIN limit, closed socket) + long send-only traces with hundreds of EAGAINs in short runs, each run followed by a 1..3-byte write (slow silent server).  Every trace runs on the implementation and on the extracted model; the '
         'driver attributes are diffed after every event, the observations (wire bytes, taken text, received bytes, fed messages) at the end. '
         'The property is evaluated directly: wire bytes must be a prefix of (equal to, once the buffer is empty) the UTF-8 of the taken '
-        'messages; fed messages must equal those of a fresh driver fed the same bytes one at a time.  str.encode / decode(replace) / strip '
+        'messages; a socket that reported no error and never more than 120 EAGAINs in a row must still be connected; fed messages must equal those of a fresh driver fed the same bytes one at a time.  str.encode / decode(replace) / strip '
         'models are diffed against CPython on boundary alphabets.  non-trivial = distinct trace that moved bytes')
 TRUSTED = ['IrcMsg(line) (subject of C05) enters the theorems as an arbitrary function parse : str -> res M; the executable instance uses the '
            'table line -> exception that the harness computes with the real constructor',
@@ -33,7 +33,7 @@ LEVEL_TEXT = ('Coq theorems over an executable Gallina model of SocketDriver._se
               'parser rejects with a caught exception is skipped and, if the parser raises nothing else, no byte stream can end the driver; '
               'the outgoing invariant wire ++ outbuffer = utf8(text of the messages that entered the buffer) holds on EVERY trace (finding C11.F11 repaired: the '
               'out-buffer holds the unsent bytes), that text being all text taken from the queue unless a last batch had no UTF-8 encoding (its exception ends the '
-              'driver); the buffer drains under sends returning > 0; an EAGAIN moves no byte and keeps the connection exactly up to the regenerated limit.  '
+              'driver); the buffer drains under sends returning > 0; an EAGAIN moves no byte and keeps the connection exactly up to the regenerated limit, and EAGAINs in runs of at most limit+1 never end the connection however many in total (the counter is reset by every successful send; the send block is pinned statement by statement).  '
               'Tied to the source by regenerated constants (EAGAIN code and limit, line separator, whitespace set, bytes out-buffer) and a per-event '
               'differential run of the extracted model against the real driver on every check.')
 LEVEL_NOTE = ('Trusted: Coq kernel, gen_tables.py, extraction + OCaml driver, the Python harness (fake socket, stub irc, emulation of drivers.run\'s '
@@ -42,6 +42,7 @@ TECHNIQUE = 'Coq proof (trace invariants by induction, list-splitting lemmas) + 
 EXPLANATION = 'C11: model of the SocketDriver byte-stream paths; theorems in coq/C11/Props.v'
 
 BIG = 1 << 20
+EAGAIN_RUN_TOLERATED = 120   # 'self.eagains > 120' in _handleSocketError: up to 120 consecutive EAGAINs must be survived
 EXN_CODE = {v: k for k, v in wire.EXN.items()}
 _mods = {}
 
@@ -117,13 +118,16 @@ class FakeConn:
         self.wire = bytearray()
         self.received = bytearray()
         self.sres = self.rres = None
+        self.log = []                      # what the socket answered, call by call: ok / eagain / err / closed / timeout
 
     def send(self, data):
         s = self.sres
         if s[0] == 'sent':
             n = min(s[1], len(data))
             self.wire += data[:n]
+            self.log.append('ok')
             return n
+        self.log.append('eagain' if s[1] == 11 else 'err')
         raise socket.error(s[1], 'scripted error')
 
     def recv(self, n):
@@ -131,9 +135,12 @@ class FakeConn:
         if r[0] == 'data':
             b = bytes.fromhex(r[1])
             self.received += b
+            self.log.append('ok' if b else 'closed')
             return b
         if r[0] == 'timeout':
+            self.log.append('timeout')
             raise socket.timeout('timed out')
+        self.log.append('eagain' if r[1] == 11 else 'err')
         raise socket.error(r[1], 'scripted error')
 
     def close(self):
@@ -260,6 +267,25 @@ def direct_oracle(events):
     snaps, final, (d, irc, conn, dead) = run_impl(events, check)
     if fails:
         return fails[0]
+    # "no matter how the OS splits writes (1..n bytes, EAGAIN)": a socket that never reported an error or a close and
+    # never answered EAGAIN more than EAGAIN_RUN_TOLERATED times in a row (timeouts neither count nor reset) must
+    # still be connected -- otherwise the bytes written stay a truncated prefix of the messages for good
+    run = maxrun = 0
+    for a in conn.log:
+        if a == 'eagain':
+            run += 1
+            maxrun = max(maxrun, run)
+        elif a == 'ok':
+            run = 0
+    if not dead and maxrun <= EAGAIN_RUN_TOLERATED and not any(a in ('err', 'closed') for a in conn.log) \
+            and (not d.connected or conn._closed):
+        try:
+            want = ''.join(irc.taken).encode('utf-8')
+        except UnicodeEncodeError:
+            want = b''
+        return ('the socket reported no error and never more than %d EAGAINs in a row (%d in total), yet the driver closed the connection: '
+                'the socket has received %d of %d bytes, %d left in the out-buffer'
+                % (maxrun, conn.log.count('eagain'), len(conn.wire), len(want), len(d.outbuffer)))
     # incoming: same bytes one at a time on a fresh driver
     data = bytes(conn.received)
     ref_events = [{'t': 'read', 'r': ['data', bytes([b]).hex()], 'msgs': [], 's': ['sent', 0]} for b in data]
@@ -444,6 +470,32 @@ def gen_eagain_burst(rng, n):
     return evs + DRAIN
 
 
+LONG_TEXT = ('PRIVMSG #chan :h\xe9llo w\xf6rld \u20ac5 \U0001f600 ' + 'x' * 170 + '\r\n')   # 200+ bytes, multi-byte characters early
+
+
+def gen_eagain_isolated(rng=None):
+    """hundreds of EAGAINs in total, never many in a row, each run followed by a successful short write; no data is
+    received meanwhile (a slow, silent server).  rng=None: the canonical corpus trace (EAGAIN, 1 byte, EAGAIN, 1 byte, ...)"""
+    nbytes = len(LONG_TEXT.encode('utf-8'))
+    evs = [ev_send([LONG_TEXT], ('err', 11))]
+    sent = 0
+    while sent < nbytes:
+        k = 1 if rng is None else rng.choice([1, 1, 2, 3])
+        evs.append(ev_send([], ('sent', k)))
+        sent += k
+        if sent >= nbytes:
+            break
+        for _ in range(1 if rng is None else rng.choice([1, 1, 1, 2, 3])):
+            kind = 0 if rng is None else rng.random()
+            if kind < 0.7:
+                evs.append(ev_send([], ('err', 11)))
+            elif kind < 0.85:
+                evs.append(ev_read(['err', 11]))                       # recv() EAGAIN counts on the same counter
+            else:
+                evs.append(ev_read(['timeout'], [], ('err', 11)))     # poll timeout, then the write hits EAGAIN
+    return evs + DRAIN
+
+
 # ---------------------------------------------------------------- primitives
 def check_primitives(ctx):
     m = mods()
@@ -484,12 +536,13 @@ def check_primitives(ctx):
 def run(ctx):
     mods()
     rng = ctx.rng
-    cases = [(t, 'corpus') for t in CORPUS]
+    cases = [(t, 'corpus') for t in CORPUS] + [(gen_eagain_isolated(), 'corpus')]   # seeded change C11_7: EAGAIN counter never reset by send
     cases += [(t, 'out-exhaustive') for t in gen_out_exhaustive(ctx.scale)]
     cases += [(t, 'in-partitions') for t in gen_in_exhaustive(ctx.scale)]
     ctx.notes.append('incoming: all partitions of %d streams; outgoing: all send scripts of <=%d calls over 8 texts'
                      % (len(STREAMS) + (len(STREAMS_THOROUGH) if ctx.scale > 1 else 0), 3 if ctx.scale == 1 else 4))
     cases += [(gen_eagain_burst(rng, n), 'eagain-burst') for n in (119, 120, 121, 122, 123, 130)]
+    cases += [(gen_eagain_isolated(rng), 'eagain-isolated') for _ in range(ctx.n(6))]
     cases += [(gen_trace(rng), 'mixed') for _ in range(ctx.n(2500))]
     cases += [(gen_trace(rng, True), 'hostile') for _ in range(ctx.n(1200))]
     outs = ctx.model([w_trace(t) for t, _ in cases])
